@@ -214,3 +214,71 @@ package ast
 //@     invariant [err] err == nil
 //@   loop 5
 //@     invariant [err] (err != nil) == existsS(t, visited(5, t) && undefinedProd(g, t))
+//@
+//@ # ---- C14: the lexical part is built only from productions with pairwise different names ----
+//@ func newLexProdMap
+//@   prop C14
+//@   ensures [fresh] result != nil && result >= old(alloc()) && result.idMap != nil && result.idxMap != nil
+//@   assigns nothing
+//@ func newLexProductions
+//@   prop C14
+//@   ensures [fresh] result != nil && result >= old(alloc()) && len(result.Productions) == 0
+//@   assigns nothing
+//@ func newLexImports
+//@   prop C14
+//@   ensures [fresh] result != nil && result >= old(alloc())
+//@   assigns nothing
+//@ spec noDupIds(ps []ast.LexProduction) bool = all(j, 0, len(ps), all(k, 0, j, lexId(ps[k]) != lexId(ps[j])))
+//@ func NewLexProdMap
+//@   prop C14
+//@   requires [prods] prodList != nil && all(k, 0, len(prodList.Productions), isLexProd(prodList.Productions[k]))
+//@   panics [duplicate] !noDupIds(prodList.Productions)
+//@   ensures [fresh] result != nil && result >= old(alloc())
+//@   assigns nothing
+//@
+//@ # NewLexPart panics (through NewLexProdMap) when two lexical productions of any kind share a name; otherwise it
+//@ # returns the lexical part without error, and every token definition is in TokDefsList
+//@ spec lexProds(pl interface{}) []ast.LexProduction = as(pl, *ast.LexProductions).Productions
+//@ func NewLexPart
+//@   prop C14
+//@   requires [args] (header == nil || typeis(header, *FileHeader)) && (imports == nil || typeis(imports, *LexImports))
+//@   requires [prods] prodList == nil || (typeis(prodList, *LexProductions) && as(prodList, *LexProductions) != nil && all(k, 0, len(lexProds(prodList)), isLexProd(lexProds(prodList)[k])))
+//@   panics [duplicate] prodList != nil && !noDupIds(lexProds(prodList))
+//@   # the three per-kind duplicate tests (`return nil, fmt.Errorf("duplicate ...")`) are dead code: NewLexProdMap has
+//@   # panicked before the loop if any two productions share a name; the proof shows their paths infeasible
+//@   allow_unreachable type1/return type2/return type3/return
+//@   ensures [accepted] result1 == nil && result0 != nil && result0 >= old(alloc()) && all(k, 0, len(result0.TokDefsList), result0.TokDefsList[k] != nil)
+//@   ensures [tokens] imp(prodList != nil, all(j, 0, len(lexProds(prodList)), imp(typeis(lexProds(prodList)[j], *LexTokDef), some(k, 0, len(result0.TokDefsList), result0.TokDefsList[k] == as(lexProds(prodList)[j], *LexTokDef)))))
+//@   assigns nothing
+//@   loop 1
+//@     invariant [part] lexPart != nil && lexPart >= old(alloc()) && lexPart.TokDefs != nil && lexPart.RegDefs != nil && lexPart.IgnoredTokDefs != nil && lexPart.TokDefs >= old(alloc()) && lexPart.RegDefs >= old(alloc()) && lexPart.IgnoredTokDefs >= old(alloc())
+//@     invariant [lists-fresh] (cap(lexPart.TokDefsList) == 0 || arr(lexPart.TokDefsList) >= old(alloc())) && (cap(lexPart.RegDefsList) == 0 || arr(lexPart.RegDefsList) >= old(alloc())) && (cap(lexPart.IgnoredTokDefsList) == 0 || arr(lexPart.IgnoredTokDefsList) >= old(alloc()))
+//@     invariant [nodup] noDupIds(lexProds(prodList))
+//@     invariant [tok-keys] forallS(s, imp(has(lexPart.TokDefs, s), some(k, 0, range_i1, lexId(lexProds(prodList)[k]) == s)))
+//@     invariant [reg-keys] forallS(s, imp(has(lexPart.RegDefs, s), some(k, 0, range_i1, lexId(lexProds(prodList)[k]) == s)))
+//@     invariant [ign-keys] forallS(s, imp(has(lexPart.IgnoredTokDefs, s), some(k, 0, range_i1, lexId(lexProds(prodList)[k]) == s)))
+//@     invariant [nonnil] all(k, 0, len(lexPart.TokDefsList), lexPart.TokDefsList[k] != nil)
+//@     invariant [tokens] all(j, 0, range_i1, imp(typeis(lexProds(prodList)[j], *LexTokDef), some(k, 0, len(lexPart.TokDefsList), lexPart.TokDefsList[k] == as(lexProds(prodList)[j], *LexTokDef))))
+//@
+//@ # ---- C14: NewGrammar (the reduce function of the start production of gocc's own grammar) hands on the verdict of
+//@ # consistent on the augmented grammar ----
+//@ # augment prepends the production S' : <first production name>; `append(a, b...)` is outside govc's subset, so its
+//@ # contract is trusted
+//@ func (*SyntaxPart).augment
+//@   prop C14
+//@   trusted
+//@   requires [first] this != nil && len(this.ProdList) > 0 && this.ProdList[0] != nil
+//@   ensures [fresh] result != nil && result >= old(alloc()) && len(result.ProdList) == len(this.ProdList) + 1
+//@   ensures [start] result.ProdList[0] != nil && result.ProdList[0].Id == "S'" && result.ProdList[0].Body != nil && len(result.ProdList[0].Body.Symbols) == 1 && typeis(result.ProdList[0].Body.Symbols[0], SyntaxProdId) && string(as(result.ProdList[0].Body.Symbols[0], SyntaxProdId)) == this.ProdList[0].Id
+//@   ensures [rest] all(k, 1, len(result.ProdList), result.ProdList[k] == this.ProdList[k-1])
+//@   assigns nothing
+//@ spec rejectable(g *ast.Grammar) bool = some(i, 0, len(g.SyntaxPart.ProdList), len(g.SyntaxPart.ProdList[i].Body.Symbols) == 0) || existsS(t, usedIn(g, t) && undefinedProd(g, t))
+//@ func NewGrammar
+//@   prop C14
+//@   requires [init] errUndefined != nil
+//@   requires [lex] lexPart == nil || (typeis(lexPart, *LexPart) && as(lexPart, *LexPart) != nil && all(k, 0, len(as(lexPart, *LexPart).TokDefsList), as(lexPart, *LexPart).TokDefsList[k] != nil))
+//@   requires [syntax] syntaxPart == nil || (typeis(syntaxPart, *SyntaxPart) && as(syntaxPart, *SyntaxPart) != nil && len(as(syntaxPart, *SyntaxPart).ProdList) > 0 && len(as(syntaxPart, *SyntaxPart).ProdList[0].Id) > 0 && all(p, 0, len(as(syntaxPart, *SyntaxPart).ProdList), cProdWF(as(syntaxPart, *SyntaxPart).ProdList[p])))
+//@   ensures [grammar] result0 != nil && result0 >= old(alloc()) && result0.LexPart != nil && (result0.SyntaxPart != nil) == (syntaxPart != nil)
+//@   ensures [refused] imp(result0.SyntaxPart != nil && rejectable(result0), result1 != nil)
+//@   ensures [only] imp(result1 != nil, result0.SyntaxPart != nil && rejectable(result0))
+//@   assigns nothing
